@@ -255,6 +255,12 @@ dt_io_find_strpdt2(
 		case GRPATM_DIGITS:
 			/* yay, look for all digits */
 			for (p = str; p < zp && !(*p >= '0' && *p <= '9'); p++);
+			if (p > str && p < zp && p[-1] == '-' &&
+			    !dt_unk_p(d = dt_strpdt(p - 1, fmt, ep))) {
+				/* a sign in front of the digits, as in epochs */
+				p--;
+				goto found;
+			}
 			for (const char *q = p;
 			     q < zp && *q >= '0' && *q <= '9'; q++) {
 				if ((--f.off_min <= 0) &&
